@@ -147,6 +147,8 @@ def normalize_grid(
     size_ = size.sub(1) if align_corners else size
     if not channels_last:
         grid = move_dim(grid, 1, -1)
+    if not align_corners:
+        grid = grid.add(0.5)  # -1 is the border of the first grid cell, not its center
     if side_length != 1:
         grid = grid.mul(side_length)
     grid = torch.where(size > 1, grid.div(size_).sub(1), zero)
@@ -176,9 +178,12 @@ def denormalize_grid(
     size_ = size.sub(1) if align_corners else size
     if not channels_last:
         grid = move_dim(grid, 1, -1)
-    grid = torch.where(size > 1, grid.add(1).mul(size_), zero)
+    grid = grid.add(1).mul(size_)
     if side_length != 1:
         grid = grid.div(side_length)
+    if not align_corners:
+        grid = grid.sub(0.5)  # -1 is the border of the first grid cell, not its center
+    grid = torch.where(size > 1, grid, zero)
     if not channels_last:
         grid = move_dim(grid, -1, 1)
     return grid
